@@ -143,10 +143,11 @@ theorem consumeIdOrKeyword_okP (p : Pos) (prevTok : Option Token) (c : Ch) (rest
   by_cases helse : ((takeIdChars (c :: rest)).map (·.cp) == elseCps) = true
   · simp only [helse, if_true]
     simp only [beq_iff_eq] at helse
-    by_cases h7 : startsWith elseIfCps (c :: rest) = true
+    by_cases h7 : (startsWith elseIfCps (c :: rest) && elseIfBoundary (c :: rest)) = true
     · simp only [h7, if_true]
+      have h7' : startsWith elseIfCps (c :: rest) = true := (Bool.and_eq_true _ _ ▸ h7).1
       exact idResOkP_of_consumesP
-        (consumesP_printable hw (startsWith_printRun elseIfCps _ h7 (by decide))) (by simp) (by simp)
+        (consumesP_printable hw (startsWith_printRun elseIfCps _ h7' (by decide))) (by simp) (by simp)
     · simp only [h7]
       exact idResOkP_of_consumesP
         (consumesP_printable hw (idCps_printRun (k := elseCps) helse (by decide))) (by simp) (by simp)
